@@ -5,6 +5,8 @@ from . import common as C
 
 
 def fibres(shape, axis, me=None):
+    if len(shape) == 2 and axis is None:
+        return [((i * shape[1] + j,), [(i, j)]) for i in range(shape[0]) for j in range(shape[1])]
     if len(shape) == 3 and me in ("min", "max"):
         return [((i, j), [(g, i, j) for g in range(shape[0])]) for i in range(shape[1]) for j in range(shape[2])]
     if len(shape) == 1:
@@ -20,7 +22,10 @@ def observe(spec, inputs):
     n = C.ns()
     out = {"error": None}
     try:
-        X = n.pnd.integer_ndarray(numpy.array(inputs["arr"], dtype=numpy.int64))
+        base = numpy.array(inputs["arr"], dtype=numpy.int64)
+        if spec.get("layout") == "T":
+            base = numpy.ascontiguousarray(base.T).T
+        X = n.pnd.integer_ndarray(base)
         res = numpy.asarray(X.ndint_compress(method=spec["method"], axis=spec["axis"]))
         out["shape"] = list(res.shape)
         fb = fibres(tuple(spec["shape"]), spec["axis"], spec["method"])
